@@ -4,8 +4,8 @@ CONSTANTS
   WithBuiltin = TRUE
   Bytes = {238, 126, 49, 13, 66, 141, 120}
   MaxLen = 8
-  MaxSeg = 4
+  MaxSeg = 3
   Caps = {1, 2, 3, 4, 5}
-  MaxRaw = 6
+  MaxRaw = 4
 INVARIANTS Export RoundTrip UnknownCodeRejected
 CHECK_DEADLOCK FALSE
